@@ -128,7 +128,8 @@ func r04_8(c *Ctx, r *Report) {
 		var bad []string
 		n := 0
 		accept := func(vals []int64) (bool, string) {
-			_, outcome, fail := run(fn, intParamsLeaf(fn, vals, nil), func(b *ssa.BasicBlock) bool { return b == alloc })
+			// followed to the return: checks may stand in the block of the allocation itself
+			_, outcome, fail := run(fn, intParamsLeaf(fn, vals, nil), nil)
 			switch {
 			case outcome == "panic":
 				return false, ""
